@@ -22,6 +22,7 @@ type gpass struct {
 	only      string
 	roleCount map[string]int
 	flagSeen  map[string]bool
+	testsDir  string
 
 	// per-verification context
 	cur     *closureCtx
@@ -534,7 +535,13 @@ func (g *gpass) closureExit(s *vc.State, f *vc.Frame, kind string, results []vc.
 					shapeOK = false
 					continue
 				}
-				argsOK = vc.And(argsOK, valueEq(s, callArgs[k0+i], entry(n)))
+				want := entry(n)
+				fi := freeVarIndex(jc.fn, n)
+				ft := jc.fn.FreeVars[fi].Type().Underlying().(*types.Pointer).Elem()
+				if _, isIface := ps.At(k0 + i).Type().Underlying().(*types.Interface); isIface {
+					want = x.MakeInterface(s, want, ft)
+				}
+				argsOK = vc.And(argsOK, valueEq(s, callArgs[k0+i], want))
 			}
 		}
 		if len(callArgs) != ps.Len() {
